@@ -206,6 +206,41 @@ Definition spec_custom_row (en : list param) (row : list Z) : assignment :=
                 (p_key p, spec_custom_value p (sum_nat (map pwidth (firstn k en))) row))
       (seq 0 (length en)).
 
+(* ------------------------------------------------------------------------------------ source configuration
+   What the translator (translator/c05.py) reads from the declarative parts of pyxel/observation/misc.py and
+   observation.py; Gen_C05.src_cfg is regenerated from the source on every run and the model below is evaluated --
+   and the theorems of Properties/C05.v are stated -- for that value. *)
+Record cfg := mkCfg {
+  (* _get_short_name_with_model: a key that does not have five dotted components keeps its full key
+     (false: the 5-tuple unpacking raises ValueError) *)
+  cf_name_fallback_full : bool;
+  (* _get_short_dimension_names_new: names that are still shared after the <model>.<argument> fallback are
+     replaced by the full key (false: they stay shared) *)
+  cf_name_stage3 : bool;
+  (* _add_custom_parameters: every vector-valued parameter is attached on its own dim_<n> (false: all on the
+     anonymous dimension dim_0, so that different lengths cannot be merged) *)
+  cf_custom_dims_distinct : bool;
+  (* CustomMode.build: column_range=None means the whole table (false: DataFrame.loc[:, None] -> KeyError) *)
+  cf_custom_range_optional : bool;
+  (* convert_custom_data (dask path) reads the selected columns by position (false: by the labels 0,1,..) *)
+  cf_dask_custom_positional : bool;
+  (* convert_custom_data hands over the bare number only for the placeholder "_" itself (false: for every
+     parameter with exactly one placeholder, also the one-element list ["_"]) *)
+  cf_dask_custom_scalar_is_placeholder : bool;
+  (* ProductMode.create_params de-duplicates every value list (first occurrences) before building the MultiIndex
+     (false: a repeated value makes pandas refuse the non-unique MultiIndex) *)
+  cf_dask_product_dedup : bool;
+  (* SequentialMode.create_params builds its rows from get_parameters_item(processor): one parameter at a time,
+     the others at their configured values (false: the value lists are zipped, DESIGN F12) *)
+  cf_dask_sequential_rows : bool
+}.
+
+(* the tree the framework was built on (round 1) and the tree with the round-2 repairs *)
+Definition cfg_round1 : cfg := mkCfg false false false false false false false false.
+(* the round-2 repairs of C05; the two dask defects repaired under C07 are separate flags *)
+Definition cfg_repaired : cfg := mkCfg true true true true true true false false.
+Definition cfg_all_repaired : cfg := mkCfg true true true true true true true true.
+
 (* ------------------------------------------------------------------------------------ dimension names *)
 
 Fixpoint split_dot_aux (s : string) (cur : string) : list string :=
@@ -216,28 +251,17 @@ Fixpoint split_dot_aux (s : string) (cur : string) : list string :=
   end.
 Definition split_dot (s : string) : list string := split_dot_aux s "".
 
-Inductive dname := Short (s : string) | WithModel (m p : string).
-
-Definition dname_eqb (a b : dname) : bool :=
-  match a, b with
-  | Short x, Short y => String.eqb x y
-  | WithModel m p, WithModel m' p' => String.eqb m m' && String.eqb p p'
-  | _, _ => false
-  end.
-
-Definition render (d : dname) : string :=
-  match d with Short s => s | WithModel m p => m ++ "." ++ p end.
-
 (* short() with the readout-time special case *)
 Definition short_of (key : string) : string :=
   if String.eqb key "observation.readout.times" then "readout_time"
   else last (split_dot key) "".
 
-(* _get_short_name_with_model: exactly five components, else ValueError (None) *)
-Definition with_model (key : string) : option dname :=
+(* _get_short_name_with_model: "<model>.<argument>" of a key with exactly five components; any other key:
+   the key itself (repaired) or ValueError (None) *)
+Definition with_model (c : cfg) (key : string) : option string :=
   match split_dot key with
-  | [_; _; m; _; p] => Some (WithModel m p)
-  | _ => None
+  | [_; _; m; _; p] => Some (m ++ "." ++ p)
+  | _ => if cf_name_fallback_full c then Some key else None
   end.
 
 Fixpoint count_str (s : string) (l : list string) : nat :=
@@ -250,12 +274,23 @@ Fixpoint all_some_pairs {A B} (l : list (A * option B)) : option (list (A * B)) 
   | (a, Some b) :: t => option_map (cons (a, b)) (all_some_pairs t)
   end.
 
+(* first two stages of _get_short_dimension_names_new: the last component; if that is shared, the
+   fallback of _get_short_name_with_model *)
+Definition name2 (c : cfg) (shorts : list string) (k : string) : option string :=
+  if Nat.ltb 1 (count_str (short_of k) shorts) then with_model c k else Some (short_of k).
+
+Definition dim_names2 (c : cfg) (keys : list string) : option (list (string * string)) :=
+  all_some_pairs (map (fun k => (k, name2 c (map short_of keys) k)) keys).
+
+(* third stage (repaired code): a name that is still shared is replaced by the full key *)
+Definition stage3 (c : cfg) (m : list (string * string)) : list (string * string) :=
+  if cf_name_stage3 c
+  then map (fun kn => (fst kn, if Nat.ltb 1 (count_str (snd kn) (map snd m)) then fst kn else snd kn)) m
+  else m.
+
 (* _get_short_dimension_names_new over the keys of `types` (a dict: distinct keys, in order) *)
-Definition dim_names (keys : list string) : option (list (string * dname)) :=
-  let shorts := map short_of keys in
-  all_some_pairs
-    (map (fun k => if Nat.ltb 1 (count_str (short_of k) shorts) then (k, with_model k)
-                   else (k, Some (Short (short_of k)))) keys).
+Definition dim_names (c : cfg) (keys : list string) : option (list (string * string)) :=
+  option_map (stage3 c) (dim_names2 c keys).
 
 (* ------------------------------------------------------------------------------------ labels, result *)
 
@@ -294,8 +329,8 @@ Definition set_eqb {A} (eqb : A -> A -> bool) (a b : list A) : bool := subset eq
 Definition label_eqb (a b : label) : bool := set_eqb item_eqb a b.
 Definition entry_eqb (a b : label * Z) : bool := label_eqb (fst a) (fst b) && Z.eqb (snd a) (snd b).
 
-Definition name_of (names : list (string * dname)) (k : string) : string :=
-  match dict_get k names with Some d => render d | None => "?" end.
+Definition name_of (names : list (string * string)) (k : string) : string :=
+  match dict_get k names with Some d => d | None => "?" end.
 Definition type_of (types : list (string * ptype)) (k : string) : ptype :=
   match dict_get k types with Some t => t | None => Simple end.
 
@@ -378,13 +413,20 @@ Definition select_cols (lo hi : nat) (row : list Z) : list Z := firstn (hi + 1 -
 Definition default_of (slots : assignment) (k : string) : pval :=
   match dict_get k slots with Some v => v | None => Sc 0 end.
 
+(* CustomMode.build: the table after the column selection; None = KeyError *)
+Definition custom_table (cf : cfg) (table : list (list Z)) (range : option (nat * nat)) : option (list (list Z)) :=
+  match range with
+  | Some (lo, hi) => Some (map (select_cols lo hi) table)
+  | None => if cf_custom_range_optional cf then Some table else None
+  end.
+
 Record outcome := mkOutcome {
   oc_runs : list (list pval);          (* per executed run, in order: the values of all slots *)
   oc_result : list (label * Z)         (* the assembled result: labels -> data *)
 }.
 
 (* the observation as coded (sequential, non-dask path).  None = an exception is raised. *)
-Definition observe (m : omode) (ps : list param) (slots : assignment) (table : list (list Z))
+Definition observe (cf : cfg) (m : omode) (ps : list param) (slots : assignment) (table : list (list Z))
            (range : option (nat * nat)) : option outcome :=
   let en := enabled ps in
   let keys := unique (map p_key en) in
@@ -392,7 +434,7 @@ Definition observe (m : omode) (ps : list param) (slots : assignment) (table : l
   match m with
   | Product =>
       if existsb has_ph en then None else
-      match dim_names keys with
+      match dim_names cf keys with
       | None => None
       | Some names =>
           let runs := product_runs ps in
@@ -405,28 +447,27 @@ Definition observe (m : omode) (ps : list param) (slots : assignment) (table : l
       end
   | Sequential =>
       if existsb has_ph en then None else
-      match dim_names keys with
+      match dim_names cf keys with
       | None => None
       | Some names =>
           let runs := sequential_runs (default_of slots) ps in
-          if all_eq_nat (flat_map (fun r => vec_lens (r_params r)) runs)
+          if cf_custom_dims_distinct cf || all_eq_nat (flat_map (fun r => vec_lens (r_params r)) runs)
           then option_map (mkOutcome (map (fun r => received slots (r_params r)) runs))
                  (assemble (map (fun r => (custom_label names (hd 0 (r_index r)) (r_params r),
                                            data_of slots (r_params r))) runs))
           else None
       end
   | Custom =>
-      match range with
+      match custom_table cf table range with
       | None => None                                         (* .loc[:, None] -> KeyError *)
-      | Some (lo, hi) =>
-          let rows := map (select_cols lo hi) table in
+      | Some rows =>
           match custom_runs (length (hd [] rows)) rows ps with
           | None => None
           | Some runs =>
-              match dim_names keys with
+              match dim_names cf keys with
               | None => None
               | Some names =>
-                  if all_eq_nat (flat_map (fun r => vec_lens (r_params r)) runs)
+                  if cf_custom_dims_distinct cf || all_eq_nat (flat_map (fun r => vec_lens (r_params r)) runs)
                   then option_map (mkOutcome (map (fun r => received slots (r_params r)) runs))
                          (assemble (map (fun r => (custom_label names (hd 0 (r_index r)) (r_params r),
                                                    data_of slots (r_params r))) runs))
@@ -434,6 +475,171 @@ Definition observe (m : omode) (ps : list param) (slots : assignment) (table : l
               end
           end
       end
+  end.
+
+(* ------------------------------------------------------------------------------------ the dask path
+   with_dask=True: <Mode>.create_params(dim_names) builds the array of parameter tuples, and
+   observation_dask.run_pipelines_with_dask runs one pipeline per cell (processor.replace(dict(zip(
+   dim_names, cell)))) and stores its buckets in the cell, whose coordinates are the labels. *)
+
+Fixpoint pvals_nodup (l : list pval) : bool :=
+  match l with [] => true | a :: t => negb (existsb (pval_eqb a) t) && pvals_nodup t end.
+
+(* order of a pandas level: numbers by value, tuples lexicographically *)
+Fixpoint listZ_leb (a b : list Z) : bool :=
+  match a, b with
+  | [], _ => true
+  | _ :: _, [] => false
+  | x :: a', y :: b' => if Z.ltb x y then true else if Z.ltb y x then false else listZ_leb a' b'
+  end.
+Definition pval_leb (a b : pval) : bool :=
+  match a, b with
+  | Sc x, Sc y => Z.leb x y
+  | Vec x, Vec y => listZ_leb x y
+  | Sc _, _ => true
+  | Vec _, Ph => true
+  | Ph, Ph => true
+  | _, _ => false
+  end.
+Fixpoint insert_sorted (x : pval) (l : list pval) : list pval :=
+  match l with
+  | [] => [x]
+  | y :: r => if pval_leb x y then x :: l else y :: insert_sorted x r
+  end.
+(* MultiIndex.levels: pandas keeps every level sorted *)
+Definition sort_level (l : list pval) : list pval := fold_right insert_sorted [] l.
+
+(* list(dict.fromkeys(l)): first occurrences, in order *)
+Fixpoint dedup_pvals_aux (seen l : list pval) : list pval :=
+  match l with
+  | [] => []
+  | a :: t => if existsb (pval_eqb a) seen then dedup_pvals_aux seen t else a :: dedup_pvals_aux (a :: seen) t
+  end.
+Definition dedup_pvals (l : list pval) : list pval := dedup_pvals_aux [] l.
+
+(* all_steps = {step.key: list(step) for step in enabled_steps} *)
+Definition dask_steps (en : list param) : list (string * list pval) :=
+  dict_of (map (fun p => (p_key p, piter p)) en).
+
+(* the coordinates of a cell of the product array: every parameter under its dimension name *)
+Definition dask_product_label (names : list (string * string)) (params : assignment) : label :=
+  map (fun kv => (name_of names (fst kv), LV (snd kv))) params.
+
+(* ProductMode.create_params, generic in the order `norm` pandas gives each level:
+   Series(list(mi), index=mi).to_xarray() -- the cell with coordinates (l_1[i_1], .., l_n[i_n]) holds
+   exactly that tuple, l_k = norm(values_k) *)
+Definition dask_product_cells (norm : list pval -> list pval) (steps : list (string * list pval))
+  : list assignment :=
+  map (fun vs => combine (map fst steps) vs) (iproduct (map (fun s => norm (snd s)) steps)).
+
+(* SequentialMode.create_params: list(zip( *values )): truncated to the shortest list, every run sets
+   ALL parameters (DESIGN F12) *)
+Fixpoint zipn {A} (ls : list (list A)) : list (list A) :=
+  match ls with
+  | [] => []
+  | [l] => map (fun x => [x]) l
+  | l :: r => map (fun p => fst p :: snd p) (combine l (zipn r))
+  end.
+
+Definition dask_sequential_cells (steps : list (string * list pval)) : list assignment :=
+  map (fun vs => combine (map fst steps) vs) (zipn (map snd steps)).
+
+(* convert_custom_data: the single column as a number -- for a parameter with one placeholder
+   (`len(params) == 1`, round 1) or for the placeholder "_" itself (`params == "_"`, repaired) --, else the
+   tuple of the next len(params) columns; the steps are the enabled parameters in declaration order *)
+Definition dask_scalar (cf : cfg) (p : param) : bool :=
+  if cf_dask_custom_scalar_is_placeholder cf
+  then match p_values p with Under => true | _ => false end
+  else Nat.eqb (plen p) 1.
+
+Fixpoint dask_custom_row (cf : cfg) (en : list param) (row : list Z) (i : nat) : assignment :=
+  match en with
+  | [] => []
+  | p :: rest =>
+      (p_key p, if dask_scalar cf p then Sc (nth i row 0%Z) else Vec (firstn (plen p) (skipn i row)))
+      :: dask_custom_row cf rest row (i + plen p)
+  end.
+
+(* id coordinate + one coordinate per parameter (sequential and custom mode) *)
+Definition dask_id_label (names : list (string * string)) (index : nat) (params : assignment) : label :=
+  ("id", LI index) :: map (fun kv => (name_of names (fst kv), LV (snd kv))) params.
+
+Definition dask_outcome (slots : assignment) (cells : list (label * assignment)) : option outcome :=
+  option_map (mkOutcome (map (fun c => received slots (snd c)) cells))
+             (assemble (map (fun c => (fst c, data_of slots (snd c))) cells)).
+
+(* the value lists ProductMode.create_params hands to pandas *)
+Definition dask_product_steps (cf : cfg) (steps : list (string * list pval)) : list (string * list pval) :=
+  if cf_dask_product_dedup cf then map (fun s => (fst s, dedup_pvals (snd s))) steps else steps.
+
+(* the rows of SequentialMode.create_params *)
+Definition dask_seq_cells (cf : cfg) (get : string -> pval) (ps : list param) : list assignment :=
+  if cf_dask_sequential_rows cf then map r_params (sequential_runs get ps)
+  else dask_sequential_cells (dask_steps (enabled ps)).
+
+(* the observation as coded, dask path.  None = an exception is raised.  oc_runs lists the cells (the
+   order of execution is dask's business and is not compared). *)
+Definition observe_dask (cf : cfg) (m : omode) (ps : list param) (slots : assignment) (table : list (list Z))
+           (range : option (nat * nat)) : option outcome :=
+  let en := enabled ps in
+  let keys := unique (map p_key en) in
+  let steps := dask_steps en in
+  match m with
+  | Product =>
+      if existsb has_ph en then None else
+      match dim_names cf keys with
+      | None => None
+      | Some names =>
+          let steps' := dask_product_steps cf steps in
+          if str_nodup (map (name_of names) keys ++ reserved_dims)
+             && forallb (fun s => pvals_nodup (snd s)) steps'     (* non-unique MultiIndex: ValueError *)
+          then dask_outcome slots (map (fun c => (dask_product_label names c, c))
+                                       (dask_product_cells sort_level steps'))
+          else None
+      end
+  | Sequential =>
+      if existsb has_ph en then None else
+      match dim_names cf keys with
+      | None => None
+      | Some names =>
+          if str_nodup (map (name_of names) keys)                 (* non-unique DataFrame columns *)
+          then dask_outcome slots (map (fun nc => (dask_id_label names (fst nc) (snd nc), snd nc))
+                                       (enumerate_from 0 (dask_seq_cells cf (default_of slots) ps)))
+          else None
+      end
+  | Custom =>
+      match custom_table cf table range with
+      | None => None
+      | Some rows =>
+          let lo := match range with Some (lo, _) => lo | None => 0 end in
+          let ncols := length (hd [] rows) in
+          let c := count_ph en in
+          if Nat.eqb c 0 || negb (Nat.eqb c ncols) then None else
+          match dim_names cf keys with
+          | None => None
+          | Some names =>
+              if str_nodup (map (name_of names) keys)
+                 && (cf_dask_custom_positional cf || Nat.eqb lo 0) (* custom_data[0]: KeyError if lo > 0 *)
+                 && Nat.leb (sum_nat (map plen en)) ncols            (* the asserts *)
+              then dask_outcome slots (map (fun nr => (dask_id_label names (fst nr)
+                                                          (dask_custom_row cf en (snd nr) 0),
+                                                        dask_custom_row cf en (snd nr) 0))
+                                           (enumerate_from 0 rows))
+              else None
+          end
+      end
+  end.
+
+(* multiset difference: l minus xs, None if an x is missing *)
+Fixpoint remove_first {A} (eqb : A -> A -> bool) (x : A) (l : list A) : option (list A) :=
+  match l with
+  | [] => None
+  | y :: t => if eqb x y then Some t else option_map (cons y) (remove_first eqb x t)
+  end.
+Fixpoint remove_all {A} (eqb : A -> A -> bool) (xs l : list A) : option (list A) :=
+  match xs with
+  | [] => Some l
+  | x :: t => match remove_first eqb x l with None => None | Some l' => remove_all eqb t l' end
   end.
 
 (* ------------------------------------------------------------------------------------ the specification
@@ -459,7 +665,7 @@ Definition spec_accepts (m : omode) (en : list param) (ncols : nat) : bool :=
 
 (* the label the spec expects for a run: every enabled parameter under its own name with the value
    it had (vector-valued product parameters also by position) *)
-Definition spec_label (m : omode) (names : list (string * dname)) (en : list param)
+Definition spec_label (m : omode) (names : list (string * string)) (en : list param)
            (index : list nat) (params : assignment) : label :=
   match m with
   | Product =>
@@ -469,6 +675,17 @@ Definition spec_label (m : omode) (names : list (string * dname)) (en : list par
                   | Simple => [(name_of names (p_key p), LV v)]
                   | Multi => [(name_of names (p_key p) ++ "_id", LI i); (name_of names (p_key p), LV v)]
                   end) (combine index en)
+  | _ => ("id", LI (hd 0 index)) :: map (fun kv => (name_of names (fst kv), LV (snd kv))) params
+  end.
+
+(* dask path: a cell of the product array is labelled by the values themselves (a vector-valued
+   parameter by its tuple); sequential/custom cells by id and every parameter's value *)
+Definition spec_label_dask (m : omode) (names : list (string * string)) (en : list param)
+           (index : list nat) (params : assignment) : label :=
+  match m with
+  | Product =>
+      map (fun p => (name_of names (p_key p),
+                     LV (match dict_get (p_key p) params with Some v => v | None => Ph end))) en
   | _ => ("id", LI (hd 0 index)) :: map (fun kv => (name_of names (fst kv), LV (snd kv))) params
   end.
 
@@ -484,6 +701,7 @@ Record observed := mkObserved {
 Record case := mkCase {
   c_mode : omode; c_params : list param; c_slots : assignment;
   c_table : list (list Z); c_range : option (nat * nat);
+  c_dask : bool;                       (* with_dask=True (synchronous scheduler) *)
   c_obs : observed
 }.
 
@@ -496,6 +714,15 @@ Fixpoint list_eqb {A} (eqb : A -> A -> bool) (a b : list A) : bool :=
 
 Definition runs_eqb := list_eqb (list_eqb pval_eqb).
 
+(* dask path: every requested run is executed and nothing else is; the number of executions is at most the
+   size of the requested space plus ONE (run_pipelines_with_dask runs the first cell once more to learn the
+   shape of the output).  For a space without repeated elements this says: each requested run once, plus at
+   most one repetition; a repeated element of the space (a value twice in a list) may be executed once. *)
+Definition runs_dask_ok (obs expected : list (list pval)) : bool :=
+  forallb (fun r => existsb (list_eqb pval_eqb r) obs) expected &&
+  forallb (fun r => existsb (list_eqb pval_eqb r) expected) obs &&
+  Nat.leb (length obs) (length expected + 1).
+
 Definition case_rows (c : case) : list (list Z) :=
   match c_range c with
   | Some (lo, hi) => map (select_cols lo hi) (c_table c)
@@ -505,7 +732,7 @@ Definition case_rows (c : case) : list (list Z) :=
 Fixpoint labels_nodup (ls : list label) : bool :=
   match ls with [] => true | l :: t => negb (existsb (label_eqb l) t) && labels_nodup t end.
 
-Definition spec_holds (c : case) : bool :=
+Definition spec_holds (cf : cfg) (c : case) : bool :=
   let en := enabled (c_params c) in
   let rows := case_rows c in
   let o := c_obs c in
@@ -514,12 +741,14 @@ Definition spec_holds (c : case) : bool :=
     negb (o_raised o) &&
     let space := spec_space (c_mode c) en (c_slots c) rows in
     (* exactly the requested runs, in order, each with exactly its values *)
-    runs_eqb (o_runs o) (map (fun s => received (c_slots c) (snd s)) space) &&
+    (if c_dask c then runs_dask_ok (o_runs o) (map (fun s => received (c_slots c) (snd s)) space)
+     else runs_eqb (o_runs o) (map (fun s => received (c_slots c) (snd s)) space)) &&
     (* every requested run is found under its own label and holds its own data; nothing else is stored *)
-    match dim_names (unique (map p_key en)) with
+    match dim_names cf (unique (map p_key en)) with
     | None => false
     | Some names =>
-        let want := map (fun s => (spec_label (c_mode c) names en (snd (fst s)) (snd s),
+        let want := map (fun s => ((if c_dask c then spec_label_dask else spec_label)
+                                     (c_mode c) names en (snd (fst s)) (snd s),
                                    data_of (c_slots c) (snd s))) space in
         forallb (fun e => label_wf (fst e)) want &&
         forallb (fun e => match lookup (fst e) (o_result o) with
@@ -530,16 +759,17 @@ Definition spec_holds (c : case) : bool :=
 
 (* ------------------------------------------------------------------------------------ case files *)
 
-Definition outcome_agree (m : option outcome) (o : observed) : bool :=
+Definition outcome_agree (dask : bool) (m : option outcome) (o : observed) : bool :=
   match m with
   | None => o_raised o
-  | Some oc => negb (o_raised o) && runs_eqb (o_runs o) (oc_runs oc)
+  | Some oc => negb (o_raised o)
+               && (if dask then runs_dask_ok (o_runs o) (oc_runs oc) else runs_eqb (o_runs o) (oc_runs oc))
                && set_eqb entry_eqb (o_result o) (oc_result oc)
                && Nat.eqb (length (o_result o)) (length (oc_result oc))
   end.
 
-Definition model_of (c : case) : option outcome :=
-  observe (c_mode c) (c_params c) (c_slots c) (c_table c) (c_range c).
+Definition model_of (cf : cfg) (c : case) : option outcome :=
+  (if c_dask c then observe_dask else observe) cf (c_mode c) (c_params c) (c_slots c) (c_table c) (c_range c).
 
 Fixpoint indices_where {A} (f : A -> bool) (l : list A) (i : Z) : list Z :=
   match l with
@@ -547,7 +777,7 @@ Fixpoint indices_where {A} (f : A -> bool) (l : list A) (i : Z) : list Z :=
   | a :: t => if f a then i :: indices_where f t (i + 1)%Z else indices_where f t (i + 1)%Z
   end.
 
-Definition mismatches (cs : list case) : list Z :=
-  indices_where (fun c => negb (outcome_agree (model_of c) (c_obs c))) cs 0%Z.
-Definition violations (cs : list case) : list Z :=
-  indices_where (fun c => negb (spec_holds c)) cs 0%Z.
+Definition mismatches (cf : cfg) (cs : list case) : list Z :=
+  indices_where (fun c => negb (outcome_agree (c_dask c) (model_of cf c) (c_obs c))) cs 0%Z.
+Definition violations (cf : cfg) (cs : list case) : list Z :=
+  indices_where (fun c => negb (spec_holds cf c)) cs 0%Z.
